@@ -53,6 +53,48 @@ def w(name, data):
     return p
 
 
+
+# ------------------------------------------------------------------ tiny DER tree (for "extension at the very end" seeds)
+def der_parse(b):
+    out, off = [], 0
+    while off < len(b):
+        tag, l, hl = b[off], b[off + 1], 2
+        if l & 0x80:
+            k = l & 0x7f; l = int.from_bytes(b[off + 2:off + 2 + k], 'big'); hl = 2 + k
+        c = b[off + hl:off + hl + l]
+        out.append([tag, der_parse(c) if tag & 0x20 else c])
+        off += hl + l
+    return out
+
+
+def der_ser(nodes):
+    o = b''
+    for tag, body in nodes:
+        if isinstance(body, list):
+            body = der_ser(body)
+        n = len(body)
+        ln = bytes([n]) if n < 0x80 else bytes([0x80 | ((n.bit_length() + 7) // 8)]) + n.to_bytes((n.bit_length() + 7) // 8, 'big')
+        o += bytes([tag]) + ln + body
+    return o
+
+
+def tail_variants(cert_der):
+    """For every extension E of the certificate: the same certificate with E moved to the end of the extension
+    list and signatureAlgorithm/signatureValue removed, all lengths re-encoded - so E's value ends exactly at the
+    end of the buffer.  These inputs are rejected (no signature) but put every extension parser next to the
+    buffer end, where a missing bounds check becomes visible to ASan after one more mutation."""
+    t = der_parse(cert_der)
+    tbs = t[0][1][0]
+    exts = [n for n in tbs[1] if n[0] == 0xa3][0][1][0][1]
+    res = []
+    for i in range(len(exts)):
+        order = exts[:i] + exts[i + 1:] + [exts[i]]
+        saved = exts[:]
+        exts[:] = order
+        res.append(der_ser([[0x30, [tbs]]]))
+        exts[:] = saved
+    return res
+
 # ------------------------------------------------------------------ minted material
 CNF = """
 [req]
@@ -206,6 +248,10 @@ def main():
         put('c09_x509_cert', os.path.basename(f).replace('.pem', '.der'), [fl], [pem2der(rd(f))])
     for n in ('ext_all_rsa', 'ext_nc_ec', 'ext_leaf_ed'):
         put('c09_x509_cert', n + '.der', [U | D], [pem2der(m[n])])
+    k = 0
+    for n in ('ext_all_rsa', 'ext_nc_ec'):
+        for v in tail_variants(pem2der(m[n])):
+            put('c09_x509_cert', 'tail_%s_%02d.der' % (n, k), [U | D], [v]); k += 1
     chain = b''.join(all_der(rd('RSA/2048_RSA_CHAIN.pem')) + all_der(rd('RSA/2048_RSA_CA.pem')))
     put('c09_x509_cert', 'chain_rsa.der', [U | D], [chain])
     put('c09_x509_cert', 'chain_partial.der', [U | D | P], [pem2der(rd('EC/256_EC.pem')) + pem2der(rd('RSA/1024_RSA_MD4.pem')) + pem2der(rd('EC/256_EC_CA.pem'))])
